@@ -185,12 +185,20 @@ impl Component<P> for Probe {
         g.last_reported.retain(|d, _| *d <= depth);
         let mut step: Vec<(String, Value)> = Vec::new();
         let mut fired_any = false;
+        // every rule evaluates its own copy of its trigger: rules sharing one scripted trigger (e.g. registered through
+        // `with_many`) consume one script position each, in rule order
+        let mut consumed: HashMap<usize, usize> = HashMap::new();
         for (t, e) in &self.rules {
             let fire = match t {
                 Trig::Always => true,
                 Trig::Never => false,
                 Trig::EveryK(k) => iters.map(|i| i % k == 0).unwrap_or(false),
-                Trig::Scripted(o, ix) => o.get(g.script_pos[*ix]).copied().unwrap_or(false),
+                Trig::Scripted(o, ix) => {
+                    let c = consumed.entry(*ix).or_insert(0);
+                    let v = o.get(g.script_pos[*ix] + *c).copied().unwrap_or(false);
+                    *c += 1;
+                    v
+                }
                 Trig::EveryKOrChange(k) => {
                     let now = state.try_get_value::<Cw>().ok();
                     let slot = g.last_reported.iter_mut().next_back().map(|(_, v)| v).expect("a logger was initialised in this or an enclosing scope");
@@ -337,7 +345,8 @@ fn run_log_case(rep: &Reporter, c: &LogCase, scratch: &str, export: bool) {
                     let mut i = 0;
                     while i < rules.len() {
                         let (t, _) = &rules[i];
-                        let stateless = !matches!(t, Trig::Scripted(..) | Trig::EveryKOrChange(_));
+                        // (a scripted trigger may be shared as well: `with_many` hands every extractor its own copy, and each copy is asked)
+                        let stateless = !matches!(t, Trig::EveryKOrChange(_));
                         let mut j = i + 1;
                         while stateless && j < rules.len() && rules[j].0 == *t {
                             j += 1;
@@ -514,6 +523,15 @@ fn log_part(rep: &Reporter, scratch: &str) {
             }
         }
     }
+    // one scripted trigger shared by two or three extractors, registered through `with_many` and through separate `with` calls
+    for (i, e1) in exts.iter().enumerate() {
+        for e2 in &exts[i + 1..] {
+            for via in [true, false] {
+                let o = vec![true, false, true, true, false, false, true, false, true, true, false, true, true, false];
+                cases.push(LogCase { rules: vec![(Trig::Scripted(o.clone(), 0), *e1), (Trig::Scripted(o.clone(), 0), *e2), (Trig::Scripted(o, 0), *e1)], n_outer: 6, logger_in_loop: true, logger_after_loop: true, nested_scope_loop: None, two_loggers_in_loop: false, with_best: true, via_with_many: via, inf_best: false });
+            }
+        }
+    }
     rep.count("systematic_rule_sets", cases.len() as u64);
     // random: 0..4 rules, all placements, 0..12 iterations
     for _ in 0..rep.tier.pick(5_000, 600_000) {
@@ -578,6 +596,8 @@ enum ND {
     Swapless(u32), // FullyRandom(n)
     /// mapping::Linear(start, end) from a progress lens (0/1) into a generic state wrapper (0..4)
     Linear(u8, u8, u32),
+    /// a component with an identifier type parameter: (kind: velocity update / normal mutation / evaluation step, identifier: Global / A / B)
+    Ident(u8, u8),
     Seq(Vec<ND>),
     While(CD, Vec<ND>),
     If(CD, Vec<ND>),
@@ -602,6 +622,24 @@ fn build_n(n: &ND) -> Box<dyn Component<P>> {
         ND::Tournament(a, b) => selection::Tournament::new(*a, *b),
         ND::Saturation => boundary::Saturation::new(),
         ND::Swapless(k) => selection::FullyRandom::new(*k),
+        ND::Ident(kind, ident) => {
+            use mahf::components::{evaluation::PopulationEvaluator, swarm::pso::ParticleVelocitiesUpdate};
+            use mahf::identifier::{Global, A, B};
+            macro_rules! with_id {
+                ($I:ty) => {
+                    match kind % 3 {
+                        0 => ParticleVelocitiesUpdate::<$I>::new_with_id(0.5, 1.0, 1.0, 1.0).unwrap(),
+                        1 => mutation::NormalMutation::<$I>::new_with_id(0.1, 0.5),
+                        _ => PopulationEvaluator::<$I>::new_with(),
+                    }
+                };
+            }
+            match ident % 3 {
+                0 => with_id!(Global),
+                1 => with_id!(A),
+                _ => with_id!(B),
+            }
+        }
         ND::Linear(i, o, e) => {
             use mahf::components::mapping::Linear;
             use mahf::components::mutation::{MutationRate, MutationStrength, NormalMutation, UniformMutation};
@@ -654,7 +692,11 @@ fn random_n(rng: &mut SplitMix64, depth: usize, budget: &mut usize) -> Vec<ND> {
             0 => ND::Normal(1 + rng.below(999) as u32, rng.below(1001) as u32),
             1 => ND::Tournament(1 + rng.below(20) as u32, 1 + rng.below(5) as u32),
             2 => ND::Saturation,
-            3 => if rng.bool() { ND::Swapless(rng.below(30) as u32) } else { ND::Linear(rng.below(2) as u8, rng.below(4) as u8, rng.below(900) as u32) },
+            3 => match rng.below(3) {
+                0 => ND::Swapless(rng.below(30) as u32),
+                1 => ND::Linear(rng.below(2) as u8, rng.below(4) as u8, rng.below(900) as u32),
+                _ => ND::Ident(rng.below(3) as u8, rng.below(3) as u8),
+            },
             4 => ND::Seq(random_n(rng, depth + 1, budget)),
             5 => ND::While(random_c(rng, 0), random_n(rng, depth + 1, budget)),
             6 => ND::If(random_c(rng, 0), random_n(rng, depth + 1, budget)),
@@ -730,6 +772,11 @@ fn edits_n(n: &ND) -> Vec<ND> {
         }
         ND::Saturation => out.push(ND::Swapless(0)),
         ND::Swapless(k) => out.push(ND::Swapless(k + 1)),
+        ND::Ident(kind, ident) => {
+            out.push(ND::Ident(*kind, (ident + 1) % 3));
+            out.push(ND::Ident(*kind, (ident + 2) % 3));
+            out.push(ND::Ident((kind + 1) % 3, *ident));
+        }
         ND::Linear(i, o, e) => {
             out.push(ND::Linear(i + 1, *o, *e));
             for d in 1..4 {
@@ -770,6 +817,65 @@ fn ron_of(cfg: &Configuration<P>, scratch: &str, tag: u64) -> Result<String, Str
     };
     let _ = std::fs::remove_file(&path);
     out
+}
+
+/// A whole state logged through `with_auto` / `with_common` holds the value the state had - also when that value is
+/// outside the range one would expect: the progress of an evaluation budget that was overshot by the last pass is > 1.
+fn progress_above_one(rep: &Reporter, scratch: &str) {
+    use mahf::state::common::Progress;
+    type Pe = Progress<ValueOf<Evaluations>>;
+    for budget in [5u32, 7, 9] {
+        rep.case();
+        rep.nontrivial(hash_of(&("progress-above-one", budget)));
+        let cfg = Configuration::<P>::builder().while_(LessThanN::evaluations(budget), |b| b.do_(Box::new(Bump { best_from: 0 }))).do_(Logger::new()).build();
+        let problem = Real::new(1, -1.0, 1.0, RealFn::Sphere);
+        let res = catch(|| {
+            cfg.optimize_with(&problem, |state| {
+                state.insert(Cu(1));
+                state.insert(Cw(0));
+                state.insert(Evaluations(0));
+                state.configure_log(|c| {
+                    *c = mahf::logging::LogConfig::new();
+                    c.with_auto::<Pe>(EveryN::iterations(1)).with_common(EveryN::iterations(1));
+                    Ok(())
+                })
+            })
+            .map_err(|e| format!("{e:#}"))
+        });
+        let state = match res {
+            Ok(Ok(s)) => s,
+            other => {
+                rep.violation("log:run-with-loggers-failed", json!({"case": "progress above one", "result": format!("{:?}", other.map(|r| r.map(|_| ())))}));
+                continue;
+            }
+        };
+        let want = state.get_value::<Pe>();
+        let name = std::any::type_name::<Pe>();
+        let find = |v: &Value| -> Option<Value> {
+            // in-memory form: steps of entries {name, value}
+            v.as_array()?.last()?.as_array()?.iter().find(|e| e["name"].as_str() == Some(name)).map(|e| e["value"].clone())
+        };
+        let mem = cb2json(&ciborium::value::Value::serialized(&*state.log()).expect("log serialises"));
+        let got = find(&mem);
+        let cpath = format!("{scratch}/progress_{budget}.cbor");
+        let exported = state
+            .log()
+            .to_cbor(&cpath)
+            .ok()
+            .and_then(|_| std::fs::File::open(&cpath).ok())
+            .and_then(|f| ciborium::de::from_reader::<ciborium::value::Value, _>(std::io::BufReader::new(f)).ok())
+            .map(|v| cb2json(&v))
+            .and_then(|v| {
+                let names = v["names"].as_array().cloned().unwrap_or_default();
+                let ix = names.iter().position(|n| n.as_str() == Some(name))?;
+                v["entries"].as_array()?.last()?.get(ix.to_string()).cloned()
+            });
+        let _ = std::fs::remove_file(&cpath);
+        rep.count("whole_state_values_above_one_logged", (want > 1.0) as u64);
+        if got.as_ref().and_then(|v| v.as_f64()) != Some(want) || exported.as_ref().and_then(|v| v.as_f64()) != Some(want) {
+            rep.violation("log:whole-state-entry-differs-from-the-state", json!({"state": name, "value_in_the_state": want, "logged": got, "exported (cbor)": exported, "budget": budget}));
+        }
+    }
 }
 
 fn config_part(rep: &Reporter, scratch: &str) {
@@ -854,6 +960,8 @@ fn classify_collision(a: &[ND], b: &[ND]) -> &'static str {
         "scope-lost"
     } else if count(&sa, "And(") != count(&sb, "And(") {
         "and-or-confused"
+    } else if count(&sa, "Ident(") > 0 && sa.len() == sb.len() && count(&sa, "Linear(") == 0 {
+        "identifier-or-parameter-value-lost"
     } else if count(&sa, "Linear(") > 0 && sa.len() == sb.len() {
         "lens-target-or-parameter-value-lost"
     } else if sa.len() == sb.len() {
@@ -911,10 +1019,11 @@ impl<'r> TemplateVisitor for TV<'r> {
 fn main() {
     let rep = Reporter::from_args("C15");
     rep.rule("(1) log: rule sets over triggers {always, never, every-k, scripted sequence, every-k | change-of(a slowly changing value) - a stateful operand behind another operand, modelled per scope in which a logger initialised it} x extractors {iterations, evaluations, custom state via ValueOf and via IdLens (same name), missing state, best objective - also while it is +inf -, best solution} - all single rules and all pairs systematically, random sets of 0..4 rules - with loggers inside a loop (once or twice), after it, and in a loop nested in a scope, 0..12 iterations; an oracle probe directly in front of every logger computes the step that must be appended (one step per execution with a firing rule, entries in rule order, first rule wins a repeated name, explicit null for a missing source, iteration count first unless a rule already extracted it, nothing when nothing fires); the in-memory log must equal that sequence and (every third case) the JSON and CBOR exports must decode to it; (2) configuration export: families of a random configuration tree plus all its single-parameter and single-structure edits must serialise (RON) to pairwise different texts, a clone identically, names and parameter values in pre-order; every template x parameter set x n serialises, pairwise differently, with its parameters. distinct_nontrivial = distinct log cases + distinct base trees + distinct template cells");
-    rep.assume("logger placements without a visible iteration counter are not exercised; within-step order is not representable in the compressed export and is compared as a map there; values are compared as CBOR values (so +inf and an explicit null stay apart) except in the JSON export, whose format cannot hold non-finite numbers (null there is not judged); at most one change-of rule per rule set");
+    rep.assume("logger placements without a visible iteration counter are not exercised; within-step order is not representable in the compressed export and is compared as a map there; values are compared as CBOR values (so +inf and an explicit null stay apart) except in the JSON export, whose format cannot hold non-finite numbers (null there is not judged); at most one change-of rule per rule set; rules sharing one scripted trigger each consume one script position per logger execution (every rule owns a copy of its trigger)");
     let scratch = std::env::var("VERIF_SCRATCH").unwrap_or_else(|_| format!("{}/target/scratch/manual", mv::verif_root().display()));
     let _ = std::fs::create_dir_all(&scratch);
     log_part(&rep, &scratch);
+    progress_above_one(&rep, &scratch);
     config_part(&rep, &scratch);
     let mut tv = TV { rep: &rep, scratch: scratch.clone(), texts: Mutex::new(HashMap::new()) };
     let mut seen = std::collections::HashSet::new();
